@@ -133,6 +133,8 @@ type world struct {
 	urecv    [][][]byte     // per user: payloads received (recorded ones and junk), arrival order
 	probeRp  int            // replies to unrecorded probes
 	bkProbes []*net.UDPAddr // source addresses of unrecorded probes at the backend
+	epochAt  int            // >= 0: backend records from this position on come from sockets created after an idle
+	                        // timeout; an equal source port number is then an OS reuse, not the same socket
 
 	backend *net.UDPConn
 	users   []*net.UDPConn
@@ -147,7 +149,7 @@ func userIP(k int) string {
 }
 
 func newWorld(bkIP string, nusers int) (*world, error) {
-	w := &world{bkSeen: map[int]int{}, rpSeen: map[int]int{}, urecv: make([][][]byte, nusers)}
+	w := &world{bkSeen: map[int]int{}, rpSeen: map[int]int{}, urecv: make([][][]byte, nusers), epochAt: -1}
 	var err error
 	w.backend, err = net.ListenUDP("udp", &net.UDPAddr{IP: net.ParseIP(bkIP)})
 	if err != nil {
@@ -308,11 +310,12 @@ func (w *world) observe(lateFrom, lateTo []int) obsView {
 	defer w.mu.Unlock()
 	ports := map[int]int{}
 	bk := []string{}
-	for _, r := range w.bk {
-		pi, ok := ports[r.addr.Port]
+	for i, r := range w.bk {
+		key := w.sockKey(i, r.addr.Port)
+		pi, ok := ports[key]
 		if !ok {
 			pi = len(ports)
-			ports[r.addr.Port] = pi
+			ports[key] = pi
 		}
 		_, _, idx := hdr(r.data)
 		bk = append(bk, obsRec(pi, idx, r.data))
@@ -328,6 +331,14 @@ func (w *world) observe(lateFrom, lateTo []int) obsView {
 		}
 	}
 	return obsView{hx.List(bk), hx.List(ur), len(ports)}
+}
+
+// sockKey: identity of the local socket a backend record came from (source port, qualified by the epoch)
+func (w *world) sockKey(pos, port int) int {
+	if w.epochAt >= 0 && pos >= w.epochAt {
+		return port + 1000000
+	}
+	return port
 }
 
 func obsRec(where, idx int, d []byte) string {
@@ -346,8 +357,9 @@ func (w *world) monitor(prefix string, sends []send, ordered bool) []finding {
 	seen := map[int]int{}
 	portUser := map[int]int{}
 	lastIdx := map[int]int{}
-	for _, r := range w.bk {
+	for pos, r := range w.bk {
 		_, _, idx := hdr(r.data)
+		sk := w.sockKey(pos, r.addr.Port)
 		if idx < 0 || idx >= len(sends) || !bytes.Equal(sends[idx].data, r.data) {
 			add("corrupt", fmt.Sprintf("the backend received a datagram (%d bytes, header index %d) that no user sent", len(r.data), idx))
 			continue
@@ -357,10 +369,10 @@ func (w *world) monitor(prefix string, sends []send, ordered bool) []finding {
 			add("duplicate", fmt.Sprintf("datagram %d reached the backend twice", idx))
 		}
 		u := sends[idx].user
-		if pu, ok := portUser[r.addr.Port]; ok && pu != u {
+		if pu, ok := portUser[sk]; ok && pu != u {
 			add("socket-shared", fmt.Sprintf("local socket with source port index of user %d also carried datagram %d of user %d", pu, idx, u))
 		} else {
-			portUser[r.addr.Port] = u
+			portUser[sk] = u
 		}
 		if li, ok := lastIdx[u]; ok && ordered && li > idx {
 			add("reorder", fmt.Sprintf("datagram %d of user %d reached the backend after datagram %d", idx, u, li))
@@ -706,6 +718,9 @@ func idleScenario(g *hx.Gen, dist map[string]int, report func(key, what, cse str
 	// the reader goroutines have a fixed 30 s read deadline after the last reply
 	time.Sleep(31500 * time.Millisecond)
 
+	w.mu.Lock()
+	w.epochAt = len(w.bk) // sockets seen from here on were created after the idle timeout
+	w.mu.Unlock()
 	before := w.recvCounts()
 	late := 0
 	for _, o := range old {
